@@ -224,7 +224,9 @@ func FuncPkgRel(fn *ssa.Function) string {
 func FuncKey(fn *ssa.Function) string {
 	name := fn.Name()
 	if recv := fn.Signature.Recv(); recv != nil {
-		name = "(" + types.TypeString(recv.Type(), func(*types.Package) string { return "" }) + ")." + name
+		// the receiver is named without its pointer star: (T).M and (*T).M cannot both exist, and a
+		// method keeps its key when its receiver is changed from a value to a pointer
+		name = "(" + strings.TrimPrefix(types.TypeString(recv.Type(), func(*types.Package) string { return "" }), "*") + ")." + name
 	}
 	if fn.Parent() != nil {
 		return FuncKey(fn.Parent()) + "$" + strings.TrimPrefix(fn.Name(), fn.Parent().Name()+"$")
@@ -354,7 +356,7 @@ func DeclKey(p *packages.Package, fd *ast.FuncDecl) string {
 func recvString(e ast.Expr) string {
 	switch t := e.(type) {
 	case *ast.StarExpr:
-		return "*" + recvString(t.X)
+		return recvString(t.X) // see FuncKey: no star in keys
 	case *ast.Ident:
 		return t.Name
 	case *ast.IndexExpr:
